@@ -429,6 +429,40 @@ func ruleDistributorGetsAllLogs(w *World, r *Run, rule string) {
 	}
 }
 
+// ruleDistributorAs re-issues the distributor verdicts of one rule under another property's rule id.
+func ruleDistributorAs(w *World, r *Run, from, rule string) {
+	sub := newRun(r.Prop, r.Tier, r.Seed)
+	ruleDistributor(w, sub)
+	n := 0
+	for _, v := range sub.verdicts {
+		if v.Rule != from {
+			continue
+		}
+		n++
+		v.Key = rule + strings.TrimPrefix(v.Key, from)
+		v.Rule = rule
+		r.verdicts = append(r.verdicts, v)
+		r.evals++
+	}
+	for f := range sub.funcs {
+		r.funcs[f] = true
+	}
+	r.paths += sub.paths
+	if n == 0 {
+		r.Undecided(rule, fnDistOnce, "", "the distributor's rule "+from+" produced no verdict")
+	}
+}
+
+// ruleBastionGetsAllLogs: Main hands the bastion endpoint every configured log (same verdicts as C17.b, under another
+// property: an origin the witness knows but the endpoint does not is answered "unknown log" instead of by the protocol).
+func ruleBastionGetsAllLogs(w *World, r *Run, rule string) {
+	sub := newRun(r.Prop, r.Tier, r.Seed)
+	ruleOneWitness(w, sub, "C17.b")
+	if relabelFrom(sub, r, "bastion endpoint gets every configured log", rule) == 0 {
+		r.Undecided(rule, fnMain+" | bastion endpoint gets every configured log", "", "no path of Main hands a log list to the bastion endpoint")
+	}
+}
+
 func ruleReadHandlers(w *World, r *Run) {
 	fn := w.fn(fnHRegister)
 	if fn == nil {
